@@ -63,7 +63,7 @@ def gen_case(rng, idx, tier):
             a = rng.choice(with_outs)
             b = rng.choice([t for t in ts if t is not a])
             f = rng.choice(a["outs"])
-            b["outs"].append(rng.choice([f, "./" + f, "q/../" + f]))
+            b["outs"].append(rng.choice([f, "./" + f, "q/../" + f, "@ROOT@/" + f, "@ROOT@/./" + f, "@ROOT@/zz/../" + f, "@ROOT@//" + f]))
             defects.append(("multi", ts.index(b)))
         elif kind == "unresolved":
             a = rng.choice(ts)
@@ -73,7 +73,7 @@ def gen_case(rng, idx, tier):
             defects.append(("unresolved", ts.index(a)))
         elif kind == "self" and with_outs:
             a = rng.choice(with_outs)
-            a["ins"].append(rng.choice([a["outs"][0], "./" + a["outs"][0]]))
+            a["ins"].append(rng.choice([a["outs"][0], "./" + a["outs"][0], "@ROOT@/./" + a["outs"][0], "@ROOT@/q/../" + a["outs"][0]]))
             defects.append(("cycle1", ts.index(a)))
         elif kind == "cycle" and len(with_outs) >= 2:
             k = rng.randint(2, min(len(with_outs), 6))
@@ -84,7 +84,7 @@ def gen_case(rng, idx, tier):
                 src, dst = members[i], members[(i + 1) % k]
                 f = src["outs"][0]
                 if f not in dst["ins"]:
-                    dst["ins"].append(f)
+                    dst["ins"].append(rng.choice([f, f, "@ROOT@/./" + f, "@ROOT@/zz/../" + f]))
             defects.append(("cycle%d" % k, min(ts.index(m) for m in members)))
     order = list(range(len(ts)))
     if rng.random() < 0.6:
@@ -103,14 +103,16 @@ def plain_variant(case, root):
     out = []
     for i in case["order"]:
         t = ts[i]
+        ins = [p.replace("@ROOT@", root) for p in t["ins"]]
+        outs = [p.replace("@ROOT@", root) for p in t["outs"]]
         out.append(
             {
                 "name": t["name"],
                 "wd": None,
-                "ins": t["ins"],
-                "outs": t["outs"],
-                "ins_expr": gen.shape_expr(r, [repr(p) for p in t["ins"]]),
-                "outs_expr": gen.shape_expr(r, [repr(p) for p in t["outs"]]),
+                "ins": ins,
+                "outs": outs,
+                "ins_expr": gen.shape_expr(r, [repr(p) for p in ins]),
+                "outs_expr": gen.shape_expr(r, [repr(p) for p in outs]),
                 "spec": t["spec"],
             }
         )
@@ -187,6 +189,11 @@ def run_cli(case, proj, variant, kinds, res):
         for o in t["outs"]:
             if "/" not in o:
                 proj.set_file(o, 1)
+        # files named by absolute spellings may exist too (a cycle through an existing file is still a cycle)
+        for t in variant[1::3]:
+            for o in t["outs"]:
+                if o.startswith("/") and "/.." not in o and "/./" not in o and "//" not in o:
+                    proj.set_file(o, 1)
     sim = SimCluster(proj.simdir, "slurm")
     # a tracked, pending job so that `cancel` would have something to cancel
     jid = sim.add_job(variant[0]["name"], phase="pending")
